@@ -57,6 +57,17 @@ func c08Frags(r *plan.Rng) []c08Frag {
 			"kc2 := 'a' + inp % 20",
 			"bt := true && (inp > 2)",
 			"w5 := y + z + 7 + 1000 + 3.5"}},
+		{name: "identityOps", lines: []string{
+			"e0 := \"cönst\" + \"\"",
+			"e1 := e0 + ins",
+			"e2 := [1, 2, 3] + []",
+			"e3 := bytes(\"abc\") + bytes(\"\")",
+			"e4 := e3 + bytes(ins)",
+			"tm := time(86400) + 0",
+			"tm2 := tm + inp",
+			"e5 := -(-7) + inp",
+			"e6 := 2.5 * 1.0 + float(inp)",
+			"e7 := 'x' + 0 - 0 + inp % 3"}},
 		{name: "closures", lines: []string{
 			"mk := func(a) {",
 			"	return func(b) {",
